@@ -205,6 +205,9 @@ func VP_C15_errpool() {
 	pool := []string{
 		"f(1 'ab", "[1 2_]", "f(a,\n  b 'x\ny)", "f(\xff)", "[1,\xc3]", "f(a, \xe2\x80", "[\x80", "[1 '", "f(1 2 3)", "[a b c]", "f(a,\r\n b c)", "[1,  2 3]",
 		"(1\r", "1 +\r", "f(@)\r", "a ? b\n: ", "f(a,, b)", "[,]", "f(a b, c d)", "[1_ 2]", "f('x\n', 2)", "x.\n", "[1\u0085 2]", "f(1\r\n\r\n 2)", "[\n\n\n1 2]", "'abc\xe2\x80", "f(1, \xe2\x80",
+		// a diagnostic between the CR and the LF of one line break; nine and more lines; errors in column 0 of a late line
+		"\"abc\\\r\n", "'x\\\r\n' + 1", "1 +\n2 +\n3 +\n4 +\n5 +\n6 +\n7 +\n8 +\n* 2", "[1,\n2,\n3,\n4,\n5,\n6,\n7,\n8,\n9,\n10\n11]", "f(\r\n\r\n\r\n\r\n\r\n\r\n\r\n\r\n\r\n\r\n)x",
+		"a\u2028\u2028\u2028\u2028\u2028\u2028\u2028\u2028\u2028\u2028b c", "1\n\n\n\n\n\n\n\n\n\n\n\n)",
 	}
 	text := []byte(pool[vpChoice("text", len(pool))])
 	src, err := ParseSourceCode(text)
